@@ -26,7 +26,8 @@ Parts
 
 A sequence stops at the first step whose post-state is not well formed (requires wf(old)).
 Failure key = "<op>-<situation>:<clause> <concrete op>", the situation being worked out by the
-harness from the pre-state (e.g. add_block-replace-connected).
+harness from the pre-state (e.g. add_block-replace-connected).  An embed whose connection ends are copies
+is written embed-copied-ends(<operand>,<host>,<deepcopy|fresh>) in the <concrete op> part.
 """
 import sys, os, json, time, random, itertools, copy, traceback
 import warnings
@@ -479,6 +480,8 @@ def opstr(op):
         if isinstance(x, (tuple, list)):
             return '[' + ','.join(s(y) for y in x) + ']'
         return str(x).replace(' ', '_') if isinstance(x, str) else repr(x)
+    if op[0] == 'embed' and len(op) > 3:
+        op = ('embed-copied-ends', op[1], op[2], op[3].split(':')[1])
     txt = op[0] + '(' + ','.join(s(x) for x in op[1:]) + ')'
     if len(txt) > 150:     # large random operands: keep the key / message short but still specific
         import hashlib
@@ -537,7 +540,7 @@ def contract_step(g, op, history, init, st, vw=None):
     if vw is None:
         vw = view(g)
     ex = model(vw, op)
-    cat = '%s-%s' % ('embed-copied-ends' if op[0] == 'embed' and len(op) > 3 else op[0], ex.situation)
+    cat = '%s-%s' % (op[0], ex.situation)      # (an embed with copied ends is tagged in the op part of the key: embed-copied-ends(...))
     hist = list(history) + [op]
     st.nsteps += 1
     raised = None
